@@ -17,7 +17,8 @@ EXPLANATION = (
     "the next call); R04.3 the forwarding tasks (mpsc/watch send_impl, recv_impl) handle one item at a time: no task is "
     "spawned inside them; R04.4 the error classification tables (is_final / is_item_specific of base and mpsc errors) "
     "equal spec/classification.json (item failures non-final at the base layer); R04.5 the buffered size gate of "
-    "base::Sender::send precedes any transmission. Value equality through serialization, the big-data heuristic and "
+    "base::Sender::send precedes any transmission; R04.7 mpsc::Receiver::recv / recv_many have no suspension point after "
+    "the dequeue (their documented cancel safety). Value equality through serialization, the big-data heuristic and "
     "multi-sender interleavings are not decided."
 )
 ASSUMPTIONS = ["codec serialize/deserialize round-trips values (not analysed)",
@@ -124,7 +125,7 @@ def r04_5(ck, F):
                                       "chmux::sender::Sender::send_chunks"))]
     gates = []
     for bb, i, rv in b.aggregates("rch::base::sender::SendErrorKind", "MaxItemSizeExceeded"):
-        ce = [(switch_expr(b, s), switch_meaning(b, s, v)) for s, tb, v in controlling_edges(b, bb)]
+        ce = conds(b, bb)
         if any(e[0] == "bin" and e[1] == "Gt" and "max_item_size" in mir.show(e[3]) and m is True for e, m in ce):
             gates.append(bb)
     ok = len(gates) >= 1 and all(g not in b.reach(sends) for g in gates)
@@ -161,8 +162,27 @@ def r04_6(ck, F):
                   f"chunk is handed over: a restarted recv() loses it", b.loc(a["yield_bb"]))
 
 
+def r04_7(ck, F):
+    ck.rule("R04.7", "documented cancel safety of rch::mpsc::Receiver::recv / recv_many: after the await that takes requests "
+            "out of the local queue completes, no further suspension point is reachable before the function returns or "
+            "polls the queue again (a dequeued value cannot be dropped with a cancelled future)",
+            "recv() inside select! / timeout loses a value that was already taken from the queue", floor=2)
+    for m, q in (("recv", "tokio::sync::mpsc::Receiver::recv"), ("recv_many", "tokio::sync::mpsc::Receiver::recv_many")):
+        b = F.main_body("rch::mpsc::receiver::Receiver::" + m)
+        aw = [a for a in b.awaits() if (a.get("fut_fn") or "").startswith(q) and a.get("ready_bb") is not None]
+        if not aw:
+            raise mir.AnchorMissing(f"await of {q} in mpsc::Receiver::{m}")
+        polls = [a["poll_bb"] for a in aw]
+        ys = [y for y in b.yields() if all(y != a["yield_bb"] for a in aw)]
+        bad = [b.find_path([a["ready_bb"]], ys, avoid=polls) for a in aw]
+        bad = [p_ for p_ in bad if p_]
+        ck.expect(not bad, f"mpsc::Receiver::{m}#no-yield-after-dequeue", "no suspension after the dequeue",
+                  f"mpsc::Receiver::{m} can suspend after taking a value from the queue (path {bad[0] if bad else ''}): "
+                  f"cancelling it there loses the value", b.loc(bad[0][-1]) if bad else None)
+
+
 def run(ck, F):
-    for r in (r04_1, r04_2, r04_3, r04_4, r04_5, r04_6):
+    for r in (r04_1, r04_2, r04_3, r04_4, r04_5, r04_6, r04_7):
         ck.run_rule(r)
     ck.run_rule(c01.r01_5)
     ck.run_rule(c01.r01_5b)
